@@ -67,7 +67,7 @@ static void mode_index(Case &c) {
 		lzma_index *out = NULL; Dec d; d.kind = K_FILEINFO; d.idx = &out; d.file_size = f.size();
 		RunOut D = run_fileinfo(d, f, 1, P_NEED, nullptr, SIZE_MAX);
 		if (D.env) { if (out) lzma_index_end(out, &al.a); return; }
-		if (D.R.ret != LZMA_STREAM_END || !out) harness_bug("generated file rejected by the file info decoder: %s", drv::retname(D.R.ret));
+		if (D.R.ret != LZMA_STREAM_END || !out) { if (D.events) violation("C09:restart-after-memlimit-fails", "file info decoder started with limit 1, limit raised to each reported need (%u times): a valid file then ends with %s", D.events, drv::retname(D.R.ret)); harness_bug("generated file rejected by the file info decoder: %s", drv::retname(D.R.ret)); }
 		const std::vector<uint64_t> ladder = D.needs; note_slack(3, D.peak, D.final_limit);
 		if (lzma_index_stream_count(out) != ns || lzma_index_block_count(out) != nrec) harness_bug("file info decoder: %llu streams %llu blocks, built %u/%llu", (unsigned long long)lzma_index_stream_count(out), (unsigned long long)lzma_index_block_count(out), ns, (unsigned long long)nrec);
 		uint64_t dgD = take_index("file_info (discovery)", out, D.live_after_end);
@@ -110,7 +110,7 @@ static void mode_index(Case &c) {
 		lzma_index *out = NULL; Dec d; d.kind = K_INDEX; d.idx = &out;
 		RunOut D = run_dec(d, buf.data(), buf.size(), 1, P_NEED, nullptr, drv::Schedule(), false, 0);
 		if (D.env) { if (out) lzma_index_end(out, &al.a); return; }
-		if (D.R.ret != LZMA_STREAM_END) harness_bug("index decoder rejected own index: %s", drv::retname(D.R.ret));
+		if (D.R.ret != LZMA_STREAM_END) { if (D.events) violation("C09:restart-after-memlimit-fails", "index decoder started with limit 1, limit raised to each reported need (%u times): a valid Index then ends with %s", D.events, drv::retname(D.R.ret)); harness_bug("index decoder rejected own index: %s", drv::retname(D.R.ret)); }
 		const std::vector<uint64_t> ladder = D.needs; note_slack(3, D.peak, D.final_limit);
 		if (ladder.size() != 1) violation("C09:limit-not-enforced", "index decoder with limit 1: %zu LZMA_MEMLIMIT_ERROR for one Index", ladder.size());
 		if (take_index("index (discovery)", out, D.live_after_end) != dgS) violation("C09:result-differs-from-unlimited", "index decoder: decoded index differs from the encoded one after a restart");
